@@ -34,6 +34,8 @@ type serCase struct {
 	Group   []treeCase `json:"group"`
 	Workers int        `json:"workers"`
 	Shared  bool       `json:"shared"`
+	// conc: every worker owns one built catalog per project and all workers export them at once, for several rounds
+	Exports bool `json:"exports,omitempty"`
 }
 
 type callOut struct {
@@ -283,6 +285,61 @@ func serOne(sc *serCase) (out serOut) {
 				}
 				out.Solo = append(out.Solo, buildRes{End: "ok", Sha: strings.Join(parts, ",")})
 			}
+			return out
+		}
+		if sc.Exports {
+			for _, p := range ps {
+				out.Solo = append(out.Solo, buildJO(p.root, p.files, p.name))
+			}
+			cats := make([][]kit.JApi, sc.Workers)
+			oks := make([][]bool, sc.Workers)
+			out.Conc = make([][]buildRes, sc.Workers)
+			for w := 0; w < sc.Workers; w++ {
+				cats[w] = make([]kit.JApi, len(ps))
+				oks[w] = make([]bool, len(ps))
+				out.Conc[w] = make([]buildRes, len(ps))
+				for i, p := range ps {
+					j, br := buildQuiet(p.root, p.files, p.name)
+					cats[w][i] = j
+					oks[w][i] = br.End == "ok"
+					out.Conc[w][i] = br
+				}
+			}
+			var wg sync.WaitGroup
+			start := make(chan struct{})
+			for w := 0; w < sc.Workers; w++ {
+				wg.Add(1)
+				go func(w int) {
+					defer wg.Done()
+					<-start
+					for round := 0; round < 12; round++ {
+						for k := range ps {
+							i := (k + w) % len(ps)
+							if !oks[w][i] {
+								continue
+							}
+							r := buildRes{End: "ok"}
+							var parts []string
+							for _, a := range []string{"J", "O"} {
+								_, co := callAcc(&cats[w][i], a)
+								if co.Panic != "" {
+									r.End = "panic"
+									r.Panic = co.Panic
+									r.Site = co.Site
+								}
+								parts = append(parts, a+"="+co.Sha+co.Err)
+							}
+							r.Sha = strings.Join(parts, ",")
+							// keep the first result that differs from the sequential one, if any
+							if round == 0 || (out.Conc[w][i].Sha == out.Solo[i].Sha && out.Conc[w][i].End == "ok") {
+								out.Conc[w][i] = r
+							}
+						}
+					}
+				}(w)
+			}
+			close(start)
+			wg.Wait()
 			return out
 		}
 		// sequential baseline first (one at a time), then all workers at once
